@@ -32,6 +32,7 @@ void Tokenizer_delete_top_of_stack(Tokenizer *);
 PyObject *Tokenizer_pop(Tokenizer *);
 PyObject *Tokenizer_pop_keeping_context(Tokenizer *);
 void Tokenizer_memoize_bad_route(Tokenizer *);
+void Tokenizer_memoize_ident(Tokenizer *, StackIdent);
 void *Tokenizer_fail_route(Tokenizer *);
 int Tokenizer_check_route(Tokenizer *, uint64_t);
 void Tokenizer_free_bad_route_tree(Tokenizer *);
